@@ -95,6 +95,25 @@ SPECS = [
          ],
          raises={'*': {'ensures': ["raised('e1') or raised('h1') or (ext_count() == 2 and ext_raised(1))"]}},
          serves=['C09', 'C05'], no_fresh=True),
+    dict(id='S-TemplateBody-slot',
+         # "whole templates used as macros": the template body itself is a macro body -- a slot defined
+         # outside any define-macro takes the filler its user left in the scope, exactly like a slot of
+         # a named macro does
+         text='A<d metal:define-slot="s">%s</d>B' % H1,
+         own_names=['__slot_s'],
+         ensures=[
+             # the filler stack bound in the scope is consulted: its pop() is the first thing called
+             "visible0('__slot_s') is UNBOUND() or (ext_count() >= 1 and "
+             "ext_callee(0) is attr_of(visible0('__slot_s'), 'pop'))",
+             "visible0('__slot_s') is UNBOUND() or ext_raised(0) or local('__slot_s') is ext_result(0)",
+             "local('__slot_s') is not None or (holes(1) == 1 and S() == S0() + 'A<d>' + out(1) + '</d>B')",
+             "local('__slot_s') is None or (holes(1) == 0 and ext_count() == 2 "
+             " and ext_callee(1) is local('__slot_s') and is_stream(ext_arg(1, 0)) "
+             " and is_scope_copy(ext_arg(1, 1)) and is_rcontext(ext_arg(1, 2)) "
+             " and S() == S0() + 'A' + ext_out(1) + 'B')",
+         ],
+         raises={'*': {'ensures': ["raised('h1') or (ext_count() == 2 and ext_raised(1))"]}},
+         serves=['C09'], no_fresh=True),
 ]
 
 CONTRACTS = schema_contracts(SPECS)
